@@ -141,7 +141,7 @@ type Snap struct {
 // ---- events / oracles ---------------------------------------------------------------------------
 
 type Event struct {
-	Kind    string // up upenc pup pyr fetch ask pin unpin haspin pins del gc read get reinit download
+	Kind    string // up upenc pup pyr fetch ask pin unpin haspin pins del gc gcr read get serve reinit download
 	File    *File
 	Arg     []string
 	Code    int    // HTTP status (0 if none)
@@ -152,6 +152,13 @@ type Event struct {
 	GCRuns  int
 	GCCount uint64
 	Skipped bool // guard answered (nofile / unstable / bad-op): nothing executed
+	// gcr only: the racing operation ran (the run called DelFile for the trigger first); snapshots taken
+	// inside the window right before / after the racing operation; its target file and status
+	Fired      bool
+	Mid0, Mid1 *Snap
+	Target     *File
+	RaceCode   string
+	Served     boson.Address // serve only: the chunk delivered to the peer
 }
 
 type Oracle interface {
@@ -845,6 +852,155 @@ func (rn *Runner) exec(ctx *core.Ctx, ev *Event, op []string) string {
 			return "err"
 		}
 		return fmt.Sprintf("ok c=%d", col)
+	case "gcr2":
+		// gcr2 <capacity> <first spec> <second spec>: a collection as `gc`; if the first run calls DelFile for <first> and then
+		// for <second>, `POST /pins` of <first> is executed inside that second call: after the callback of <first> has decided
+		// that file's deletions (they sit in the run's batch), before the batch is committed.
+		if len(op) != 4 {
+			return skip(ev, "bad-op")
+		}
+		c, err := strconv.ParseUint(op[1], 10, 32)
+		if err != nil {
+			return skip(ev, "bad-op")
+		}
+		_, ok1 := ParseSpec(op[2])
+		_, ok2 := ParseSpec(op[3])
+		if !ok1 || !ok2 {
+			return skip(ev, "bad-op")
+		}
+		for _, g := range ev.Before.GC {
+			f := rn.byRoot(g.Root)
+			if f == nil || f.Enc || !rn.Complete(f, ev.Before) {
+				return skip(ev, "unstable")
+			}
+		}
+		f1, f2 := rn.lookup(op[2]), rn.lookup(op[3])
+		if f1 == nil || f2 == nil {
+			return skip(ev, "nofile")
+		}
+		if f1.Enc || f2.Enc {
+			return skip(ev, "bad-op")
+		}
+		if !rn.known(f1, ev.Before) || !rn.Complete(f1, ev.Before) {
+			return skip(ev, "unstable")
+		}
+		ev.File, ev.Target = f2, f1
+		ev.RaceCode = "-"
+		hook := func() {
+			ev.Mid0 = rn.Snapshot()
+			ev.RaceCode = strconv.Itoa(n.PinRef(f1.Root))
+			n.Quiesce()
+			ev.Mid1 = rn.Snapshot()
+		}
+		runs, col, fired, e := n.CollectGarbageRace(c, []boson.Address{f1.Root, f2.Root}, hook)
+		ev.GCRuns, ev.GCCount, ev.Fired = runs, col, fired
+		n.DB.VerifSetCapacity(DefaultCapacity)
+		if e != nil {
+			return "err"
+		}
+		fl := 0
+		if fired {
+			fl = 1
+		}
+		return fmt.Sprintf("ok c=%d f=%d r=%s", col, fl, ev.RaceCode)
+
+	case "gcr":
+		// gcr <capacity> <trigger spec> pin|unpin|get <target spec> -|d<i>|h<i>
+		// a collection as `gc`; when the first run calls DelFile for its FIRST candidate and that candidate is
+		// the trigger file, the operation on the target file is executed to completion inside that call —
+		// after the run selected (and, in a changed tree, possibly checked) the candidate, before the deletion
+		// callback takes batchMu and re-checks the dirty addresses.
+		if len(op) != 6 {
+			return skip(ev, "bad-op")
+		}
+		c, err := strconv.ParseUint(op[1], 10, 32)
+		if err != nil {
+			return skip(ev, "bad-op")
+		}
+		_, ok1 := ParseSpec(op[2])
+		_, ok2 := ParseSpec(op[4])
+		if !ok1 || !ok2 {
+			return skip(ev, "bad-op")
+		}
+		act, which := op[3], op[5]
+		idx := -1
+		switch act {
+		case "pin", "unpin":
+			if which != "-" {
+				return skip(ev, "bad-op")
+			}
+		case "get":
+			if len(which) < 2 || (which[0] != 'd' && which[0] != 'h') {
+				return skip(ev, "bad-op")
+			}
+			i, err := strconv.Atoi(which[1:])
+			if err != nil || i < 0 {
+				return skip(ev, "bad-op")
+			}
+			idx = i
+		default:
+			return skip(ev, "bad-op")
+		}
+		for _, g := range ev.Before.GC {
+			f := rn.byRoot(g.Root)
+			if f == nil || f.Enc || !rn.Complete(f, ev.Before) {
+				return skip(ev, "unstable")
+			}
+		}
+		trig, tgt := rn.lookup(op[2]), rn.lookup(op[4])
+		if trig == nil || tgt == nil {
+			return skip(ev, "nofile")
+		}
+		if trig.Enc || tgt.Enc {
+			return skip(ev, "bad-op")
+		}
+		var a boson.Address
+		if act == "get" {
+			switch {
+			case which[0] == 'h' && idx < len(tgt.Hash):
+				a = tgt.Hash[idx]
+			case which[0] == 'd' && idx < len(tgt.Data):
+				a = tgt.Data[idx]
+			default:
+				return skip(ev, "bad-op")
+			}
+		}
+		if !rn.known(tgt, ev.Before) || !rn.Complete(tgt, ev.Before) {
+			return skip(ev, "unstable")
+		}
+		if act == "get" && !ev.Before.Stored[a.String()] {
+			return skip(ev, "absent")
+		}
+		ev.File, ev.Target = trig, tgt
+		ev.RaceCode = "-"
+		hook := func() {
+			ev.Mid0 = rn.Snapshot()
+			switch act {
+			case "pin":
+				ev.RaceCode = strconv.Itoa(n.PinRef(tgt.Root))
+			case "unpin":
+				ev.RaceCode = strconv.Itoa(n.UnpinRef(tgt.Root))
+			default:
+				if err := n.GetUnderRoot(tgt.Root, a, storage.ModeGetRequest); err != nil {
+					ev.RaceCode = "err"
+				} else {
+					ev.RaceCode = "ok"
+				}
+			}
+			n.Quiesce() // the access-time updates of the racing reads are done (and logged as dirty) before the callback
+			ev.Mid1 = rn.Snapshot()
+		}
+		runs, col, fired, e := n.CollectGarbageRace(c, []boson.Address{trig.Root}, hook)
+		ev.GCRuns, ev.GCCount, ev.Fired = runs, col, fired
+		n.DB.VerifSetCapacity(DefaultCapacity)
+		if e != nil {
+			return "err"
+		}
+		fl := 0
+		if fired {
+			fl = 1
+		}
+		return fmt.Sprintf("ok c=%d f=%d r=%s", col, fl, ev.RaceCode)
 	}
 
 	// ops on one file
@@ -996,6 +1152,45 @@ func (rn *Runner) exec(ctx *core.Ctx, ev *Event, op []string) string {
 				rn.markCached(f.SubData[k][i : i+1])
 			}
 		}
+		return "ok"
+
+	case "serve":
+		// serve <spec> d<i>|h<i>: the peer asks N for one chunk of the file (N as target); N's retrieval
+		// handler delivers it and reports the transfer to chunkinfo (availability record for the peer)
+		if len(op) != 3 || f.Enc || len(op[2]) < 2 {
+			return skip(ev, "bad-op")
+		}
+		i, err := strconv.Atoi(op[2][1:])
+		if err != nil || i < 0 {
+			return skip(ev, "bad-op")
+		}
+		var a boson.Address
+		switch {
+		case op[2][0] == 'h' && i < len(f.Hash):
+			a = f.Hash[i]
+		case op[2][0] == 'd' && i < len(f.Data):
+			a = f.Data[i]
+		default:
+			return skip(ev, "bad-op")
+		}
+		if !rn.known(f, ev.Before) || !rn.Complete(f, ev.Before) {
+			return skip(ev, "unstable")
+		}
+		if !ev.Before.Stored[a.String()] {
+			return skip(ev, "absent")
+		}
+		data, err := n.ServeToPeer(f.Root, a)
+		if err != nil {
+			rn.err = err
+			if os.Getenv("VH_DEBUG") != "" {
+				fmt.Fprintln(os.Stderr, "serve error:", err)
+			}
+			return "err"
+		}
+		if ch, err := n.DB.Get(context.Background(), storage.ModeGetLookup, a); err != nil || !bytes.Equal(ch.Data(), data) {
+			ctx.Fail("harness-serve", "delivery for %s is not the stored chunk", short(a))
+		}
+		ev.Served = a
 		return "ok"
 
 	case "get":
